@@ -38,6 +38,7 @@ pub fn with_scenario<V: Visitor>(name: &str, v: V) -> Option<V::Out> {
 		"c04_sweep" => v.visit(&c04::C04Sweep),
 		"c04_history" => v.visit(&c04::C04History),
 		"c04_native" => v.visit(&c04::C04Native),
+		"c04_stdedge" => v.visit(&c04::C04StdEdge),
 		"c07_m1" => v.visit(&c07::C07M1),
 		"c07_m2" => v.visit(&c07::C07M2),
 		"c07_cli" => v.visit(&cli::C07Cli),
@@ -64,7 +65,7 @@ pub fn with_scenario<V: Visitor>(name: &str, v: V) -> Option<V::Out> {
 pub fn scenarios_of(property: &str) -> Vec<(&'static str, u64, u64)> {
 	match property {
 		"C03" => vec![("c03_demand", 60_000, 4_000_000)],
-		"C04" => vec![("c04_sweep", 1_500, 100_000), ("c04_history", 15_000, 600_000), ("c04_native", 250, 5_000)],
+		"C04" => vec![("c04_sweep", 1_500, 100_000), ("c04_history", 15_000, 600_000), ("c04_stdedge", 8_000, 400_000), ("c04_native", 250, 5_000)],
 		"C07" => vec![("c07_m1", 40_000, 3_000_000), ("c07_m2", 8_000, 400_000), ("c07_cli", 800, 40_000)],
 		"C15" => vec![("c15_cli", 1_000, 30_000), ("c15_deps", 600, 20_000), ("c15_capi", 1_200, 30_000)],
 		"C16" => vec![("c16_history", 30_000, 1_000_000), ("c16_procs", 250, 8_000)],
@@ -88,9 +89,9 @@ fn texts(property: &str) -> (&'static str, Vec<String>) {
 			],
 		),
 		"C04" => (
-			"c04_sweep: one case = a depth-parametric template (function recursion, mutual recursion, object chain, array nesting + manifestation, super chain, local chain, import chain, array element chain, foldl) at 2-3 depths, evaluated under every frame limit of a seeded list (dense small limits, then strided, always 200 and 512), on fresh or shared states: each outcome must be the closed-form value or a stack overflow error, monotone in the limit, thresholds monotone in the depth, shallow recursion fits the defaults, and the guarded accessors read depth 0 / nothing evaluating after every cut-off. c04_history: 2-40 pool programs (every error kind reachable from source, cut-offs, self-dependence, runaway recursion) on one thread and two long-lived states, then a canary program that must evaluate normally. c04_native: the jrsonnet executable on runaway recursion / recursion well below the limit / self-dependence / deeply nested source, across --max-stack {200,512,5000,50000} and --os-stack settings, supervised as a child (signal, abort, hang = violation). Non-trivial = at least one cut-off or error actually happened / a non-default stack configuration was used; distinct = distinct event-log digests.",
+			"c04_sweep: one case = a depth-parametric template (function recursion, mutual recursion, object chain, array nesting + manifestation, super chain, local chain, import chain, array element chain, foldl) at 2-3 depths, evaluated under every frame limit of a seeded list (dense small limits, then strided, always 200 and 512), on fresh or shared states: each outcome must be the closed-form value or a stack overflow error, monotone in the limit, thresholds monotone in the depth, shallow recursion fits the defaults, and the guarded accessors read depth 0 / nothing evaluating after every cut-off. c04_history: 2-40 pool programs (every error kind reachable from source, cut-offs, self-dependence, runaway recursion) on one thread and two long-lived states, then a canary program that must evaluate normally. c04_stdedge: 10-120 standard-library calls, operators, index and slice expressions on boundary-heavy argument tuples (empty, huge, negative, fractional, wrong type, wrong arity, non-ASCII, ropes, lazy views; sizes that would honestly need gigabytes are kept small) on one thread and state, with and without a hash salt and frame limit, then the canary. c04_native: the jrsonnet executable on runaway recursion / recursion well below the limit / self-dependence / deeply nested source, across --max-stack {200,512,5000,50000} and --os-stack settings, supervised as a child (signal, abort, hang = violation). Non-trivial = at least one cut-off or error actually happened / a non-default stack configuration was used; distinct = distinct event-log digests.",
 			vec![
-				"clause (i) of C04 over arbitrary source text and arbitrary std arguments is NOT decided by this check (it is a statement about inputs); only the process-level half is exercised on the template pool".into(),
+				"clause (i) of C04 over arbitrary source text is NOT decided by this check (it is a statement about inputs); std arguments are sampled from fixed boundary pools per parameter kind (stdedge.rs), not enumerated".into(),
 				"closed forms of the depth templates are right".into(),
 			],
 		),
